@@ -582,8 +582,12 @@ func Check(prop, tier string, nworkers int) int {
 	cov["notes"] = total.Notes
 	ev := Evidence{Property: prop, Tier: tier, Seed: seed, Level: sc.Level(), Coverage: cov, Assumptions: info.Assumptions, Wall: wall, Violations: newCount}
 	js, _ := json.MarshalIndent(ev, "", " ")
-	os.MkdirAll(filepath.Join(vd, "evidence"), 0777)
-	if err := os.WriteFile(filepath.Join(vd, "evidence", prop+".json"), js, 0666); err != nil {
+	evDir := filepath.Join(vd, "evidence")
+	if d := os.Getenv("VERIF_EVIDENCE_DIR"); d != "" {
+		evDir = d // runs against a scratch copy of the repository must not overwrite the real evidence
+	}
+	os.MkdirAll(evDir, 0777)
+	if err := os.WriteFile(filepath.Join(evDir, prop+".json"), js, 0666); err != nil {
 		trouble = append(trouble, "cannot write evidence: "+err.Error())
 	}
 	for _, z := range zero {
